@@ -86,7 +86,7 @@ func (s *spSim) apply(op *spOp) {
 		s.pods[p.id] = p
 		if p.kube == "BestEffort" && !op.LateDir {
 			s.mkPodDirs(p.meta.CgroupDir, s.containerIDs(p))
-			p.hasDir = true
+			p.hasDir, p.hadDir = true, true
 		}
 		r.Event("pod_add %d qos=%s kube=%s cpus=%s bad=%v dir=%v use=%d", p.id, p.qos, p.kube, spFmtCPUs(p.cpus, true), p.badAnno, p.hasDir, p.use)
 		r.Sample("pod_add %d qos=%s kube=%s cpus=%s use=%dm", p.id, p.qos, p.kube, spFmtCPUs(p.cpus, true), p.use)
@@ -126,6 +126,27 @@ func (s *spSim) apply(op *spOp) {
 	case "use_sys":
 		s.sysUse = op.Use
 		r.Event("use_sys %d", op.Use)
+	case "use_fit":
+		// system usage such that (with fresh metrics) the budget is op.Use milli-CPU
+		var nonBE int64
+		for _, p := range s.visiblePods() {
+			if !s.podIsBE(p) {
+				nonBE += p.use
+			}
+		}
+		for _, h := range s.hostApps {
+			if !spHostIsBE(h) {
+				nonBE += h.Use
+			}
+		}
+		v := int64(s.n)*1000*s.slo.Thr/100 - nonBE - op.Use
+		if v < 0 || (s.cfg.Exact && v%125 != 0) {
+			r.OpSkipped()
+			return
+		}
+		s.sysUse = v
+		r.Event("use_fit %d -> sys %d", op.Use, v)
+		r.Probe("usage-fitted-to-boundary")
 	case "slo":
 		if op.Slo == nil {
 			r.OpSkipped()
@@ -419,7 +440,13 @@ func (s *spSim) observeBudget(e *spExp) {
 	}
 	nodeUsage, nerr := helpers.CollectorNodeMetricLast(s.mc, qm, collect)
 	if (nerr == nil) != e.nodeFresh {
-		r.HarnessFail("fake metric cache and oracle disagree on node metric freshness: err=%v fresh=%v", nerr, e.nodeFresh)
+		// the fake serves exactly the samples inside the queried window: a disagreement means the agent looked at another
+		// window than [now - 2 x collect interval, now]
+		r.OracleEval()
+		if nerr == nil {
+			r.Fail("metric-window", "stale-node-metric-used", "node CPU usage %.3f was read although the newest sample is older than 2 x %dms", nodeUsage, s.cfg.CollectMs)
+		}
+		r.Fail("metric-window", "fresh-node-metric-ignored", "node CPU usage not found (%v) although a sample lies within the last 2 x %dms", nerr, s.cfg.CollectMs)
 	}
 	if !e.nodeFresh {
 		r.Probe("node-metric-stale")
@@ -433,7 +460,8 @@ func (s *spSim) observeBudget(e *spExp) {
 	podMetrics := helpers.CollectAllPodMetricsLast(s.inf, s.mc, metriccache.PodCPUUsageMetric, collect)
 	hostM := helpers.CollectAllHostAppMetricsLast(slo.Spec.HostApplications, s.mc, metriccache.HostAppCPUUsageMetric, collect)
 	if len(podMetrics) != len(e.podUse) || len(hostM) != len(e.hostUse) {
-		r.HarnessFail("fake metric cache and oracle disagree on fresh series: pods %d/%d hostapps %d/%d", len(podMetrics), len(e.podUse), len(hostM), len(e.hostUse))
+		r.OracleEval()
+		r.Fail("metric-window", "pod-or-hostapp-series", "the agent found %d pod / %d host application usages, %d / %d have a sample within the last 2 x %dms", len(podMetrics), len(hostM), len(e.podUse), len(e.hostUse), s.cfg.CollectMs)
 	}
 	if len(e.podUse) < len(s.visiblePods()) {
 		r.Probe("pod-metric-stale")
